@@ -118,6 +118,12 @@ def arg_for(name, b, rng):
 OPTIONAL = {'K', 'Stk', 'max_steps', 'e', 'f', 'num_fracs', 'get_dict', 'use_sf', 'use_sqrtcx', 'Cvt_eq_Cvs'}
 
 
+class OwnedDict:
+    """marks an argument that is handed over as the caller's own object (not a copy)"""
+    def __init__(self, d):
+        self.d = d
+
+
 def make_call(rng, c, bases):
     """(fn, args, kwargs) for the extracted function row c, or None if it is not a public computational function"""
     name = c['name']
@@ -127,7 +133,21 @@ def make_call(rng, c, bases):
     args, kwargs = [], {}
     for p in c['key']:
         if p == 'GSD':
-            args.append({0.15: b['d'] / 2.0, 0.5: b['d'], 0.85: b['d'] * 2.72})
+            if name == 'Erhg_graded' and rng.random() < 0.5:
+                # a discretised grading the caller owns and passes again and again as the SAME object (num_fracs=None); the caller may edit it in place
+                if '_own_gsd' not in b:
+                    from DHLLDV import DHLLDV_framework as _F
+                    try:
+                        b['_own_gsd'] = _F.create_fracs({0.15: b['d'] / 2.0, 0.5: b['d'] * 1.01, 0.85: b['d'] * 2.72}, b['Dp'], b['nu'], b['rhol'], b['rhos'])
+                    except Exception:   # noqa  (C02 / C12 decide whether the discretiser may raise; here it only supplies an argument)
+                        b['_own_gsd'] = None
+                if b['_own_gsd'] is None:
+                    args.append({0.15: b['d'] / 2.0, 0.5: b['d'], 0.85: b['d'] * 2.72})
+                    continue
+                args.append(OwnedDict(b['_own_gsd']))
+                kwargs['num_fracs'] = None
+            else:
+                args.append({0.15: b['d'] / 2.0, 0.5: b['d'], 0.85: b['d'] * 2.72})
             continue
         if p in OPTIONAL:
             if p == 'get_dict' and rng.random() < 0.6:
@@ -280,17 +300,27 @@ def monitor(ctx, extended=False):
                     if mutate(ctx.rng, tgt):
                         log.append('mutate a previously returned container in place')
                     continue
+                if 0.3 <= r < 0.36:
+                    owners = [b for b in bases if b.get('_own_gsd')]
+                    if owners:
+                        g = ctx.rng.choice(owners)['_own_gsd']
+                        f_ = ctx.rng.choice([1.05, 1.2, 0.9])
+                        for kk in list(g.keys()):
+                            g[kk] = g[kk] * f_
+                        log.append(f'the caller scales the diameters of its own GSD dict in place by {f_}')
+                        continue
                 c = make_call(ctx.rng, ctx.rng.choice(fam), bases)
                 if c is None:
                     continue
                 fn, args, kwargs = c
                 mod, name = fn.split('.')
                 ctx.count('evaluations')
-                log.append(f'{fn}{tuple(args)} {kwargs}')
+                log.append(f'{fn}{tuple(a.d if isinstance(a, OwnedDict) else a for a in args)} {kwargs}')
                 try:
-                    live = ('ok', getattr(mods[mod], name)(*[dict(a) if isinstance(a, dict) else a for a in args], **kwargs))
+                    live = ('ok', getattr(mods[mod], name)(*[a.d if isinstance(a, OwnedDict) else (dict(a) if isinstance(a, dict) else a) for a in args], **kwargs))
                 except Exception as e:   # noqa
                     live = ('exc', type(e).__name__)
+                args = [dict(a.d) if isinstance(a, OwnedDict) else a for a in args]
                 want = fresh.call(fn, args, kwargs, sf, sq)
                 if live[0] != want[0] or (live[0] == 'ok' and not same(live[1], want[1])) or (live[0] == 'exc' and live[1] != want[1]):
                     ctx.violation(f'{fn} returned {str(live)[:160]} after this history; the same call in a fresh interpreter state returns {str(want)[:160]}',
@@ -299,6 +329,31 @@ def monitor(ctx, extended=False):
                 if live[0] == 'ok' and isinstance(live[1], (dict, list)):
                     held.append(live[1])
                 events.add((fn, sf, sq, json.dumps(kwargs, sort_keys=True)))
+        # a function may not edit the containers it is given: the same call repeated with the caller's own list / dict gives the same answer
+        import copy as _copy
+        import unit_conv as UC
+        from DHLLDV import DHLLDV_framework as FW
+        vals = [0.5, 1.0, 2.5, 4.0, 7.25]
+        for label, fn, mk in ([(f'unit_conv.convert_list(factor {k})', (lambda a, c=c: UC.convert_list(c, a)), (lambda: list(vals)))
+                               for tab in (UC.unit_conv_US, UC.unit_conv_SI) for k, c in tab.items()] +
+                              [('framework.create_fracs', (lambda a: FW.create_fracs(a, 0.5, 1.0508e-6, 1.0248, 2.65)), (lambda: {0.15: 2e-4, 0.5: 4e-4, 0.85: 1.1e-3})),
+                               ('framework.Erhg_graded', (lambda a: FW.Erhg_graded(a, 3.0, 0.5, 4.5e-5, 1.0508e-6, 1.0248, 2.65, 0.2)), (lambda: {0.15: 2e-4, 0.5: 4e-4, 0.85: 1.1e-3}))]):
+            ctx.count('evaluations')
+            arg = mk()
+            before = _copy.deepcopy(arg)
+            try:
+                r1 = _copy.deepcopy(fn(arg))
+                changed = arg != before
+                r2 = fn(arg)
+                r3 = fn(mk())
+            except Exception as e:   # noqa
+                ctx.violation(f'{label} raised {type(e).__name__}: {e}', {'argument': before}, key='argument-edited')
+                continue
+            if changed or not same(r1, r2) or not same(r1, r3):
+                ctx.violation(f'{label}: ' + ('the argument was edited in place; ' if changed else '') +
+                              f'first call {str(r1)[:80]}, the same call again {str(r2)[:80]}, with a fresh equal argument {str(r3)[:80]}',
+                              {'argument': before, 'argument_after_the_call': arg if changed else None}, key='argument-edited')
+            events.add((label, 'argument-preserved'))
     finally:
         F.use_sf, F.use_sqrtcx = True, True
         fresh.close()
